@@ -711,9 +711,16 @@ func membershipFact(id, field, what string) *fact {
 				}
 				for _, r := range ir.Returns(h) {
 					for _, rv := range r.Results {
-						core, neg := ir.Peel(rv)
-						if equalityOver(c, ir.CondEdge{Cond: core, Truth: !neg}, field) {
-							return "the comparison is made in " + name(h) + ", whose result reaches the predicate's answer in a way the path engine does not follow"
+						// (a && b is returned as a phi of false and the last conjunct)
+						vals := []ssa.Value{rv}
+						if ph, isPhi := rv.(*ssa.Phi); isPhi {
+							vals = ph.Edges
+						}
+						for _, v := range vals {
+							core, neg := ir.Peel(v)
+							if equalityOver(c, ir.CondEdge{Cond: core, Truth: !neg}, field) {
+								return "the comparison is made in " + name(h) + ", whose result reaches the predicate's answer in a way the path engine does not follow"
+							}
 						}
 					}
 				}
